@@ -26,6 +26,25 @@ Rules added to `translate.Fn` (one per construct; everything else is still rejec
   calls       `f(v)` for a local declared LamFn (a total function Rat -> Rat)
   attributes  `self.<attr>` listed in the entry's `self_attrs` is the parameter of that name
   locals      a local listed in `local_types` has that declared type (used for `best_pair = None, None`)
+
+Normalisations (purely syntactic and exact; the normalised statements are then translated by the ordinary rules, so an
+equivalent shape yields the *same* generated text and a different meaning yields a different one):
+  static table   `for t1, …, tn in TABLE: BODY` where TABLE is a literal tuple / list of rows (or a dict display read through
+                 `.items()`) of str / int / bool / None literals and comparison functions of the `operator` module
+                 (`operator.lt` with `import operator`, or `lt` with `from operator import lt`), written in place, bound
+                 once to a local that is only iterated, or bound once at module level (never rebound, no `global`; a
+                 mutable table must be used only as the iterable of `for` loops): BODY once per row, in order, with each
+                 target replaced by its literal; a target bound to `operator.<cmp>` may only occur as `t(a, b)`, which is
+                 `a <cmp> b`.  No `break` / `continue` of that loop, no closure in BODY, no store to a target.
+  search loop    `for T in IT: if C: return <constant>` (nothing else in the loop, targets fresh) is
+                 `if any(C for T in IT): return <constant>`
+Added for the reshaped key rewrite of `_reduce_degree` (each has its own branch in `rd_rekey_eq_model`):
+  parts          a part's `range` may carry `alts=[…]`: alternative delimitations tried in order;
+                 `while_tail_after_gadget`: the statements of the while body after `D += ….add_constraint_eq_AND(…)` (and
+                 the hooks following it)
+  lists          `l.insert(n, a)` on a local list, n a natural number -> pyRListInsert (`l[n:n] = [a]`);
+                 `tuple(e)` of a list of labels is a key; `tuple(<generator expression>)` -> the list of its elements;
+                 `next(<generator expression>, default)` -> pyRNextD
 """
 import ast
 from .. import translate as T
@@ -97,6 +116,35 @@ def blocks_of(fnode):
 def locate_range(fnode, rng):
     """the statements of a part: from the one matching `first` to the one matching `last` (default: end of the block), in
     the same block; `body_of` = header of a loop: its whole body.  Found exactly once or Untranslatable."""
+    if "alts" in rng:
+        # the part is delimited by the first of several alternative descriptions that is found (each shape of the source
+        # is then proved equal to the same model function by its own branch of the part's theorem)
+        base = {k: v for k, v in rng.items() if k != "alts"}
+        err = None
+        for r in [base] + list(rng["alts"]):
+            try:
+                return locate_range(fnode, r)
+            except Untranslatable as e:
+                err = err or e
+        raise err
+    if rng.get("while_tail_after_gadget"):
+        # the statements of the (one) while loop's body after its last `D += <…>.add_constraint_eq_AND(…)` statement and the
+        # verification hooks that follow it, to the end of the body
+        loops = [s for b in blocks_of(fnode) for s in b if isinstance(s, ast.While)]
+        if len(loops) != 1:
+            raise Untranslatable("not exactly one while loop", fnode)
+        body = loops[0].body
+        js = [j for j, s in enumerate(body) if isinstance(s, ast.AugAssign) and isinstance(s.target, ast.Name)
+              and isinstance(s.value, ast.Call) and isinstance(s.value.func, ast.Attribute)
+              and s.value.func.attr == "add_constraint_eq_AND"]
+        if len(js) != 1:
+            raise Untranslatable("not exactly one `D += ….add_constraint_eq_AND(…)` statement in the while loop", loops[0])
+        j = js[0] + 1
+        while j < len(body) and isinstance(body[j], ast.If) and ast.dump(body[j].test) == HOOK_TEST and not body[j].orelse:
+            j += 1
+        if j >= len(body):
+            raise Untranslatable("nothing after the gadget statement in the while loop", loops[0])
+        return list(body[j:])
     if "body_of" in rng:
         hits = [s for b in blocks_of(fnode) for s in b if stmt_matches(rng["body_of"], s)]
         if len(hits) != 1:
@@ -128,12 +176,42 @@ def own_breaks(stmts):
     return False
 
 
+OPERATOR_CMP = {"eq": ast.Eq, "ne": ast.NotEq, "lt": ast.Lt, "le": ast.LtE, "gt": ast.Gt, "ge": ast.GtE}
+
+
+class _Subst(ast.NodeTransformer):
+    """one pass of an unrolled static-table loop: a read of a target bound to a constant is that constant; a target bound to
+    `operator.<cmp>` may occur only as `t(a, b)`, which is `a <cmp> b` (the documented meaning of the operator functions)"""
+    def __init__(self, binding, where):
+        self.binding, self.where = binding, where
+
+    def visit_Call(self, n):
+        if isinstance(n.func, ast.Name) and isinstance(self.binding.get(n.func.id), str):
+            if len(n.args) != 2 or n.keywords or any(isinstance(a, ast.Starred) for a in n.args):
+                raise Untranslatable("operator.%s called with other than two positional arguments"
+                                     % self.binding[n.func.id], self.where)
+            a, b = self.visit(n.args[0]), self.visit(n.args[1])
+            return ast.copy_location(ast.Compare(left=a, ops=[OPERATOR_CMP[self.binding[n.func.id]]()], comparators=[b]), n)
+        return self.generic_visit(n)
+
+    def visit_Name(self, n):
+        if n.id in self.binding:
+            if not isinstance(n.ctx, ast.Load):
+                raise Untranslatable("store to the loop target %s of a static-table loop" % n.id, self.where)
+            b = self.binding[n.id]
+            if isinstance(b, str):
+                raise Untranslatable("operator.%s (loop target %s) used other than as %s(a, b)" % (b, n.id, n.id), self.where)
+            return ast.copy_location(ast.Constant(value=b.value), n)
+        return n
+
+
 class FnExt(Fn):
 
     def __init__(self, entry, module_src, fnode, done):
         Fn.__init__(self, entry, module_src, fnode, done)
         self.loop_stack = []
         self.part_nodes = None
+        self.static_tables = {}
         if "range" in entry:
             stmts = locate_range(fnode, entry["range"])
             self.raises = self.monadic or bool(entry.get("may_raise")) or any(
@@ -195,6 +273,165 @@ class FnExt(Fn):
                 return out + self.block(stmts[n:], env2, k, ind, flow)
         return None
 
+    # ---- normalisations (purely syntactic, exact): static-table loops, search loops
+
+    def static_atom(self, n, env):
+        """an element of a static table: a str / int / bool / None literal (returned as the Constant node), or a comparison
+        function of the `operator` module, spelled `operator.<f>` (`import operator`) or `<f>` (`from operator import <f>`)
+        (returned as the name of the function); anything else: None"""
+        if isinstance(n, ast.Constant) and (n.value is None or isinstance(n.value, (str, int, bool))):
+            return n
+        if isinstance(n, ast.Attribute) and isinstance(n.value, ast.Name) and n.value.id == "operator" \
+                and n.attr in OPERATOR_CMP and "operator" not in env and "operator" not in self.assigned(self.fnode.body):
+            self.need_module_alias("operator", "operator", n)
+            return n.attr
+        if isinstance(n, ast.Name) and n.id in OPERATOR_CMP and n.id not in env and n.id not in self.assigned(self.fnode.body):
+            self.need_import("operator", n.id, n)
+            if sum(1 for x in ast.walk(ast.parse(self.src)) if isinstance(x, ast.Name) and x.id == n.id
+                   and isinstance(x.ctx, ast.Store)) or n.id in self.params_of_function():
+                raise Untranslatable("%s is rebound somewhere in this module" % n.id, n)
+            return n.id
+        return None
+
+    def params_of_function(self):
+        a = self.fnode.args
+        return {x.arg for x in a.posonlyargs + a.args + a.kwonlyargs} | {x.arg for x in (a.vararg, a.kwarg) if x}
+
+    def static_rows(self, n, env):
+        """a literal table: a tuple / list display whose elements are all atoms, or all tuple / list displays of atoms of
+        one length; a dict display `{atom: atom, …}` read as its `.items()` (distinct literal keys).  -> list of rows
+        (each a list of atoms) or None"""
+        if isinstance(n, ast.Dict):
+            if not n.keys or any(k is None for k in n.keys):
+                return None
+            rows = [[self.static_atom(k, env), self.static_atom(v, env)] for k, v in zip(n.keys, n.values)]
+            if any(a is None for r in rows for a in r):
+                return None
+            keys = [ast.dump(r[0]) if not isinstance(r[0], str) else r[0] for r in rows]
+            if len(set(keys)) != len(keys):
+                raise Untranslatable("dict display with a repeated key", n)
+            return rows
+        if not isinstance(n, (ast.Tuple, ast.List)) or not n.elts:
+            return None
+        if all(isinstance(x, (ast.Tuple, ast.List)) and x.elts for x in n.elts):
+            rows = [[self.static_atom(a, env) for a in x.elts] for x in n.elts]
+            if len({len(r) for r in rows}) != 1 or any(a is None for r in rows for a in r):
+                return None
+            return rows
+        rows = [[self.static_atom(x, env)] for x in n.elts]
+        return None if any(r[0] is None for r in rows) else rows
+
+    def module_table(self, name, items, node):
+        """`name` bound exactly once in the whole module, by a module-level `name = <literal table>`; no `global name`;
+        a list / dict table (mutable) must moreover be read only as the iterable of `for` loops"""
+        tree = ast.parse(self.src)
+        stores = [x for x in ast.walk(tree) if isinstance(x, ast.Name) and x.id == name and isinstance(x.ctx, (ast.Store, ast.Del))]
+        tops = [s for s in tree.body if isinstance(s, ast.Assign) and len(s.targets) == 1
+                and isinstance(s.targets[0], ast.Name) and s.targets[0].id == name]
+        if len(stores) != 1 or len(tops) != 1 or name not in self.module_names() \
+                or any(isinstance(x, (ast.Global, ast.Nonlocal)) and name in x.names for x in ast.walk(tree)) \
+                or any(isinstance(x, ast.arg) and x.arg == name for x in ast.walk(self.fnode)):
+            return None
+        for s in tree.body:         # bound by nothing else at module level (import, def, class)
+            if isinstance(s, (ast.Import, ast.ImportFrom)) and any((a.asname or a.name).split(".")[0] == name for a in s.names):
+                return None
+            if isinstance(s, (ast.FunctionDef, ast.ClassDef, ast.AsyncFunctionDef)) and s.name == name:
+                return None
+        val = tops[0].value
+        if isinstance(val, ast.Dict) != items:
+            return None
+        if not isinstance(val, ast.Tuple) or any(isinstance(x, ast.List) for x in val.elts):
+            iters = set()
+            for x in ast.walk(tree):
+                if isinstance(x, ast.For):
+                    it = x.iter
+                    if items and isinstance(it, ast.Call) and isinstance(it.func, ast.Attribute) and it.func.attr == "items" \
+                            and not it.args and not it.keywords:
+                        it = it.func.value
+                    iters.add(id(it))
+            if any(isinstance(x, ast.Name) and x.id == name and isinstance(x.ctx, ast.Load) and id(x) not in iters
+                   for x in ast.walk(tree)):
+                raise Untranslatable("mutable module-level table %s is used other than as the iterable of a for loop" % name,
+                                     node)
+        return val
+
+    def unroll_static_for(self, s, env):
+        """`for t1, …, tn in TABLE: BODY` over a literal table (a tuple display in place, a local bound once to one, or a
+        module-level constant; a dict display through `.items()`) is BODY once per row, in order, with the targets replaced
+        by the row's literals.  -> the unrolled statements, or None when the loop is not of this shape"""
+        it, items = s.iter, False
+        if isinstance(it, ast.Call) and isinstance(it.func, ast.Attribute) and it.func.attr == "items" and not it.args \
+                and not it.keywords:
+            it, items = it.func.value, True
+        table = None
+        if isinstance(it, ast.Name) and it.id not in env:
+            if it.id in self.static_tables:
+                table = self.static_tables[it.id]
+            elif it.id not in self.assigned(self.fnode.body):
+                table = self.module_table(it.id, items, s)
+            if table is not None and isinstance(table, ast.Dict) != items:
+                return None
+        elif isinstance(it, (ast.Tuple, ast.List, ast.Dict)) and isinstance(it, ast.Dict) == items:
+            table = it
+        if table is None:
+            return None
+        rows = self.static_rows(table, env)
+        if rows is None:
+            return None
+        if isinstance(s.target, ast.Name):
+            targets = [s.target.id]
+        elif isinstance(s.target, ast.Tuple) and all(isinstance(x, ast.Name) for x in s.target.elts):
+            targets = [x.id for x in s.target.elts]
+        else:
+            return None
+        if isinstance(s.target, ast.Name) and len(rows[0]) != 1:
+            return None
+        if len(targets) != len(rows[0]) or len(set(targets)) != len(targets):
+            raise Untranslatable("static-table loop: %d targets for rows of %d" % (len(targets), len(rows[0])), s)
+        if s.orelse:
+            raise Untranslatable("for ... else", s)
+        for x in targets:
+            if x in env:
+                raise Untranslatable("loop target %s shadows a local" % x, s)
+        for b in s.body:
+            for n in ast.walk(b):
+                if isinstance(n, (ast.Lambda, ast.FunctionDef, ast.AsyncFunctionDef, ast.ClassDef)):
+                    raise Untranslatable("closure inside a static-table loop", n)
+
+        def outer_jumps(stmts):
+            for x in stmts:
+                if isinstance(x, (ast.Break, ast.Continue)):
+                    return True
+                if isinstance(x, ast.If) and (outer_jumps(x.body) or outer_jumps(x.orelse)):
+                    return True
+            return False
+        if outer_jumps(s.body):
+            raise Untranslatable("break / continue of a static-table loop", s)
+        import copy
+        out = []
+        for r in rows:
+            sub = _Subst(dict(zip(targets, r)), s)
+            out += [ast.fix_missing_locations(sub.visit(copy.deepcopy(b))) for b in s.body]
+        return out
+
+    def search_loop_as_any(self, s, env):
+        """`for T in IT: if C: return <constant>` (nothing else in the loop) is `if any(C for T in IT): return <constant>`:
+        both evaluate C on the elements in order and stop at the first true one.  (The targets must be fresh: the `for`
+        statement would leave them bound, the generator does not — a later read is then rejected as unbound.)"""
+        if s.orelse or len(s.body) != 1 or not isinstance(s.body[0], ast.If) or s.body[0].orelse:
+            return None
+        inner = s.body[0]
+        if len(inner.body) != 1 or not isinstance(inner.body[0], ast.Return) \
+                or not isinstance(inner.body[0].value, ast.Constant):
+            return None
+        names = [n.id for n in ast.walk(s.target) if isinstance(n, ast.Name)]
+        if any(x in env for x in names):
+            return None
+        gen = ast.GeneratorExp(elt=inner.test, generators=[ast.comprehension(target=s.target, iter=s.iter, ifs=[], is_async=0)])
+        call = ast.Call(func=ast.Name(id="any", ctx=ast.Load()), args=[gen], keywords=[])
+        new = ast.If(test=call, body=[inner.body[0]], orelse=[])
+        return ast.fix_missing_locations(ast.copy_location(new, s))
+
     # ---- statements
 
     def assigned(self, stmts):
@@ -207,6 +444,9 @@ class FnExt(Fn):
                     x = n.id
                 elif isinstance(n, ast.Subscript) and isinstance(n.ctx, ast.Store) and isinstance(n.value, ast.Name):
                     x = n.value.id
+                elif isinstance(n, ast.Call) and isinstance(n.func, ast.Attribute) and n.func.attr == "insert" \
+                        and isinstance(n.func.value, ast.Name):
+                    x = n.func.value.id                      # `l.insert(n, a)` rebinds the list local (see `stmt`)
                 if x is not None and x not in out:
                     out.append(x)
         return out
@@ -234,6 +474,42 @@ class FnExt(Fn):
             return self.loop_stack[-1][kind](env)
         if isinstance(s, ast.While):
             return self.while_(s, env, cont, ind, flow)
+        if isinstance(s, ast.Assign) and len(s.targets) == 1 and isinstance(s.targets[0], ast.Name) \
+                and isinstance(s.value, (ast.Tuple, ast.List, ast.Dict)) and s.targets[0].id not in env \
+                and s.targets[0].id not in self.e.get("local_types", {}):
+            # a local bound once (by a top-level statement of the function, so on every path) to a literal table of
+            # constants / operator functions: known statically, read only by
+            # the static-table loop rule (it never enters the environment, so every other use is rejected as unbound).
+            # A list / dict display is accepted only when every read of the name is the iterable of a `for`.
+            x = s.targets[0].id
+            nstores = sum(1 for n in ast.walk(self.fnode) if isinstance(n, ast.Name) and n.id == x
+                          and isinstance(n.ctx, (ast.Store, ast.Del)))
+            if nstores == 1 and x not in self.params_of_function() and not self.loop_stack \
+                    and any(s is b for b in self.fnode.body) \
+                    and not any(isinstance(n, (ast.Global, ast.Nonlocal)) and x in n.names for n in ast.walk(self.fnode)):
+                rows = self.static_rows(s.value, env)
+                if rows is not None:
+                    iters = set()
+                    for n in ast.walk(self.fnode):
+                        if isinstance(n, ast.For):
+                            it = n.iter
+                            if isinstance(it, ast.Call) and isinstance(it.func, ast.Attribute) and it.func.attr == "items" \
+                                    and not it.args and not it.keywords:
+                                it = it.func.value
+                            iters.add(id(it))
+                    if all(id(n) in iters for n in ast.walk(self.fnode)
+                           if isinstance(n, ast.Name) and n.id == x and isinstance(n.ctx, ast.Load)):
+                        self.static_tables[x] = s.value
+                        return cont(env)
+        if isinstance(s, ast.For) and self.eff_ty is None and not flow:
+            un = self.unroll_static_for(s, env)
+            if un is not None:
+                new = un + list(rest)
+                return self.stmt(new, env, k, ind, flow) if new else k(env)
+            if any(isinstance(n, ast.Return) for b in s.body for n in ast.walk(b)):
+                sa = self.search_loop_as_any(s, env)
+                if sa is not None:
+                    return self.stmt([sa] + list(rest), env, k, ind, flow)
         if isinstance(s, ast.Assign) and len(s.targets) == 1 and isinstance(s.targets[0], ast.Subscript) \
                 and isinstance(s.targets[0].value, ast.Name) and isinstance(res(env.get(s.targets[0].value.id)), TDict):
             d = s.targets[0].value.id
@@ -262,6 +538,19 @@ class FnExt(Fn):
                 v, tv = self.expr(s.value, env)
                 return "let %s : Poly := (pyMatrixIadd %s %s %s);\n%s%s" % (
                     mangle(d), mangle(d), key, coerce(v, tv, RAT, s), pad, cont(env))
+        if isinstance(s, ast.Expr) and isinstance(s.value, ast.Call) and isinstance(s.value.func, ast.Attribute) \
+                and s.value.func.attr == "insert" and isinstance(s.value.func.value, ast.Name) \
+                and s.value.func.value.id in env and type(res(env[s.value.func.value.id])) is TList \
+                and len(s.value.args) == 2 and not s.value.keywords:
+            # `l.insert(n, a)` on a local list, n a natural number: `l[n:n] = [a]` (prelude pyRListInsert)
+            l = s.value.func.value.id
+            tl = res(env[l])
+            i, ti = self.expr(s.value.args[0], env)
+            if res(ti) is not NAT:
+                raise Untranslatable("list.insert at an index that is not a natural number", s)
+            a, ta = self.expr(s.value.args[1], env, tl.elt)
+            return "let %s : %s := (pyRListInsert %s %s %s);\n%s%s" % (
+                mangle(l), lean_ty(tl), mangle(l), i, coerce(a, ta, tl.elt, s), pad, cont(env))
         if isinstance(s, ast.AugAssign) and isinstance(s.target, ast.Name) and s.target.id in env \
                 and res(env[s.target.id]) is MATRIX:
             return self.matrix_iadd(s, env, cont, pad)
@@ -549,6 +838,28 @@ class FnExt(Fn):
             if res(ta) is POLY and res(tb) is T.ASSIGN:
                 return "(pyValue %s %s)" % (a, b), RAT
             raise Untranslatable(".value() of a %s" % lean_ty(ta), n)
+        if isinstance(f, ast.Name) and f.id == "next" and len(n.args) == 2 and not n.keywords and "next" not in env \
+                and isinstance(n.args[0], ast.GeneratorExp):
+            # `next(<generator expression>, default)`: the first element the generator yields, `default` when it yields
+            # none (the elements are pure, so evaluating the later ones as well is unobservable)
+            if "next" in self.module_names():
+                raise Untranslatable("builtin next is rebound in this module", n)
+            g = n.args[0]
+            l, tl = self.comprehension(ast.ListComp(elt=g.elt, generators=g.generators, lineno=n.lineno), env)
+            d, td = self.pure_only(lambda: self.expr(n.args[1], env, res(tl).elt), "the default of next()", n)
+            return "(pyRNextD %s %s)" % (l, coerce(d, td, res(tl).elt, n)), res(tl).elt
+        if isinstance(f, ast.Name) and f.id == "tuple" and len(n.args) == 1 and not n.keywords and "tuple" not in env:
+            if isinstance(n.args[0], ast.GeneratorExp):
+                # a generator expression consumed at once by tuple(): the list of its (pure) elements
+                if "tuple" in self.module_names():
+                    raise Untranslatable("builtin tuple is rebound in this module", n)
+                g = n.args[0]
+                s, t = self.comprehension(ast.ListComp(elt=g.elt, generators=g.generators, lineno=n.lineno), env)
+            else:
+                s, t = Fn.call(self, n, env)
+            if type(res(t)) is TList and res(res(t).elt) is VAR:
+                return s, KEY                     # a tuple of labels is a key (`Key` is `List Var`)
+            return s, t
         if isinstance(f, ast.Name) and f.id == "any" and len(n.args) == 1 and isinstance(n.args[0], ast.GeneratorExp) \
                 and not n.keywords and "any" not in env:
             if "any" in self.module_names():
@@ -573,7 +884,8 @@ HOOK_NOTE = "the statements guarded by `if __import__(\"os\").environ.get(\"JTIO
 REGISTRY = [
     # (c) the key rewrite: drop x and y, insert z before the first larger label
     dict(RD, lean="rd_rekey", group="Reduce", after="old_key, key, z_inserted = key, (), False",
-         range=dict(first="old_key, key, z_inserted = key, (), False", last="if not z_inserted:"),
+         range=dict(first="old_key, key, z_inserted = key, (), False", last="if not z_inserted:",
+                    alts=[dict(while_tail_after_gadget=True)]),
          locals=[("key", "Key"), ("x", "Var"), ("y", "Var"), ("z", "Var")], loop_state=[("key", "Key")],
          not_translated=["everything outside the statements from `old_key, key, z_inserted = key, (), False` to "
                          "`if not z_inserted: key += (z,)`"]),
